@@ -556,4 +556,6 @@ func Normalize(v tla.Value) tla.Value {
 	return v
 }
 
-func seen(v tla.Value) bool { return v.IsBool() || v.IsNumber() || v.IsString() || v.IsSet() || v.IsTuple() || v.IsFunction() }
+func seen(v tla.Value) bool {
+	return v.IsBool() || v.IsNumber() || v.IsString() || v.IsSet() || v.IsTuple() || v.IsFunction()
+}
